@@ -47,7 +47,7 @@ vxlan.py:80-99, rip.py:86-111, dns.py:265-330, dhcp.py:176-266, ipv6.py:100-118,
 840-918, 962-1005, gre.py:102-149, igmp.py:109-193.
 -/
 namespace Pox.Parse
-open Pox Pox.Layout Pox.Packet Pox.Checksum
+open Pox Pox.PktLayout Pox.Packet Pox.Checksum
 
 /-- places in the parsers added in phase 2 where the code, as it stands, lets an exception escape `ethernet(raw=…)`; each is a
 registered known finding (known_findings.json C15-K5 … K14) -/
